@@ -480,7 +480,7 @@ func (env *CEnv) bin(e *CE) Term {
 			return mk(f, rs)
 		}
 	case SBV64:
-		m := map[string]string{"+": "bvadd", "-": "bvsub", "*": "bvmul", "&": "bvand", "|": "bvor", "^": "bvxor",
+		m := map[string]string{"+": "bvadd", "-": "bvsub", "*": "bv_mul", "&": "bvand", "|": "bvor", "^": "bvxor",
 			"<": "bvslt", "<=": "bvsle", ">": "bvsgt", ">=": "bvsge", "<<": "bvshl", ">>": "bvashr"}
 		if f, ok := m[op]; ok {
 			rs := SBV64
@@ -492,8 +492,8 @@ func (env *CEnv) bin(e *CE) Term {
 	case SF64:
 		switch op {
 		case "+", "-", "*", "/":
-			m := map[string]string{"+": "fp.add", "-": "fp.sub", "*": "fp.mul", "/": "fp.div"}
-			return Term{S: "(" + m[op] + " RNE " + a.S + " " + b.S + ")", Sort: SF64}
+			m := map[string]string{"+": "f_add", "-": "f_sub", "*": "f_mul", "/": "f_div"}
+			return Term{S: "(" + m[op] + " " + a.S + " " + b.S + ")", Sort: SF64}
 		case "<", "<=", ">", ">=":
 			m := map[string]string{"<": "fp.lt", "<=": "fp.leq", ">": "fp.gt", ">=": "fp.geq"}
 			return mk(m[op], SBool)
@@ -576,10 +576,10 @@ func (env *CEnv) call(e *CE) Term {
 		return env.coerceLit(arg(0), SBV64)
 	case "sfloat": // signed BV64 -> F64 (Go float64(int64 x))
 		a := env.coerceLit(arg(0), SBV64)
-		return Term{S: "((_ to_fp 11 53) RNE " + a.S + ")", Sort: SF64}
+		return Term{S: "(bv2f_s " + a.S + ")", Sort: SF64}
 	case "ufloat":
 		a := env.coerceLit(arg(0), SBV64)
-		return Term{S: "((_ to_fp_unsigned 11 53) RNE " + a.S + ")", Sort: SF64}
+		return Term{S: "(bv2f_u " + a.S + ")", Sort: SF64}
 	case "float":
 		return env.coerceLit(arg(0), SF64)
 	case "isNaN":
@@ -596,7 +596,11 @@ func (env *CEnv) call(e *CE) Term {
 		if strings.HasSuffix(e.Name, "div") || strings.HasSuffix(e.Name, "rem") || e.Name == "lshr" {
 			rs = SBV64
 		}
-		return Term{S: "(bv" + e.Name + " " + a.S + " " + b.S + ")", Sort: rs}
+		fn := "bv" + e.Name
+		if rs == SBV64 && e.Name != "lshr" {
+			fn = "bv_" + e.Name
+		}
+		return Term{S: "(" + fn + " " + a.S + " " + b.S + ")", Sort: rs}
 	case "typeof":
 		return Term{S: "(dyntype " + arg(0).S + ")", Sort: SInt}
 	case "typeid":
